@@ -1,7 +1,8 @@
 (** C16 -- BanditScheduler.tell as harness/py2v_bandit.py reads it from the CURRENT source (Generated/BanditTellGen.v, rewritten on
     every run) against Model/Bandit.v: the credit an emitter receives for a round is the model's [credit] step, for all counts. *)
 From Coq Require Import List Arith Bool ZArith QArith.
-From PV Require Import Base.ListUtil Base.SliceUtil Model.Store Model.Scheduler Model.Bandit Model.BanditTellFacts Generated.BanditTellGen.
+From PV Require Import Base.ListUtil Base.SliceUtil Model.Store Model.Scheduler Model.Bandit Model.BanditTellFacts Generated.BanditTellGen
+     Proofs.BanditProofs.
 Import ListNotations.
 
 Theorem gen_bandit_tell_facts_are_model : gen_bandit_tell_facts = model_bandit_tell_facts.
@@ -20,7 +21,21 @@ Theorem gen_credit_is_model : forall (i : nat) (t : told V F) rest (nums sel suc
          (upd sel i (gen_credit_selection (nth i sel 0%nat) (nth i nums 0%nat)))
          (upd suc i (gen_credit_success (nth i suc 0%nat) (count_nz status_nz (t_info t)))).
 Proof. intros. reflexivity. Qed.
+
+(** the whole crediting loop, for every round in which each emitter is delivered to at most once: an emitter that was told
+    ends with exactly the source's two sums, every other emitter's counters are what they were *)
+Theorem gen_credit_loop_is_model : forall (ds : list (nat * told V F)) (nums sel suc : list nat),
+  NoDup (map fst ds) ->
+  let sel' := fst (credit status_nz ds nums sel suc) in
+  let suc' := snd (credit status_nz ds nums sel suc) in
+  length sel' = length sel /\ length suc' = length suc /\
+  (forall i, ~ In i (map fst ds) -> nth i sel' 0%nat = nth i sel 0%nat /\ nth i suc' 0%nat = nth i suc 0%nat) /\
+  (forall i t, In (i, t) ds -> (i < length sel)%nat -> (i < length suc)%nat ->
+     nth i sel' 0%nat = gen_credit_selection (nth i sel 0%nat) (nth i nums 0%nat) /\
+     nth i suc' 0%nat = gen_credit_success (nth i suc 0%nat) (count_nz status_nz (t_info t))).
+Proof. intros ds nums sel suc Hnd. exact (credit_spec status_nz ds nums sel suc Hnd). Qed.
 End BanditTellRefine.
 
 Print Assumptions gen_bandit_tell_facts_are_model.
 Print Assumptions gen_credit_is_model.
+Print Assumptions gen_credit_loop_is_model.
